@@ -42,6 +42,7 @@ type Contract struct {
 	Requires   []*Clause
 	Ensures    []*Clause
 	ObjInv     []*Clause // object invariant of the receiver: assumed at entry, proved at exit, not demanded of callers
+	Assumes    []*Clause // facts about the calling context assumed at entry (application wiring); never demanded of callers
 	Implements string    // role/interface contract this function's contract must refine
 	Preserves  []*Clause // with `modifies everything`: locations that nevertheless keep their value
 	Modifies   []*Clause // Expr is a location expression; nil Expr + Text "nothing"
@@ -103,7 +104,7 @@ var clauseKeywords = map[string]bool{
 	"func": true, "requires": true, "ensures": true, "modifies": true, "allocates": true,
 	"loop": true, "pure": true, "trusted": true, "inline": true, "tags": true, "spec": true,
 	"ufun": true, "axiom": true, "ghost": true, "package": true, "lib": true, "nopanic": true, "arith": true,
-	"purepkg": true, "purefn": true, "sameas": true, "preserves": true, "objinv": true, "implements": true,
+	"purepkg": true, "purefn": true, "sameas": true, "preserves": true, "objinv": true, "implements": true, "assumes": true,
 }
 
 // LoadFile parses one contract or spec file. defaultPkg is the Go package path
@@ -296,6 +297,13 @@ func (db *SpecDB) LoadFile(path, defaultPkg string, lib bool) error {
 				cur.SameAs = strings.TrimSpace(rest)
 			case kw == "implements":
 				cur.Implements = strings.TrimSpace(rest)
+			case kw == "assumes":
+				e, err := ParseExpr(rest)
+				if err != nil {
+					fail(l.no, "%v", err)
+					continue
+				}
+				cur.Assumes = append(cur.Assumes, &Clause{Kind: "assumes", Expr: e, Text: rest, Tags: tags, Src: src, Idx: len(cur.Assumes)})
 			case kw == "objinv":
 				e, err := ParseExpr(rest)
 				if err != nil {
